@@ -435,16 +435,15 @@ class Ctx:
                                capture_output=True, text=True, timeout=int(os.environ.get("VERIF_COQCHK_TIMEOUT", "5400")))
             out = r.stdout + r.stderr
         except subprocess.TimeoutExpired:
-            self.extra_cov = dict(getattr(self, "extra_cov", {}), coqchk="timed out (not counted as a failure; coqc's kernel accepted the proofs)")
+            self.coqchk_cov = "timed out (not counted as a failure; coqc's kernel accepted the proofs)"
             self.log("coqchk timed out")
             return
         summ = out[out.find("CONTEXT SUMMARY"):] if "CONTEXT SUMMARY" in out else out[-800:]
         fields = dict(re.findall(r"\* (Axioms|Constants/Inductives relying on type-in-type|Constants/Inductives relying on unsafe \(co\)fixpoints|Inductives whose positivity is assumed):\s*(.*?)\n\s*\n", summ + "\n\n", re.S))
         bad = {k: " ".join(v.split()) for k, v in fields.items() if v.strip() != "<none>"}
         okc = r.returncode == 0 and len(fields) == 4 and not bad
-        self.extra_cov = dict(getattr(self, "extra_cov", {}),
-                              coqchk={"cmd": "coqchk -silent -o -Q . V V.Props.%s" % pid, "rc": r.returncode,
-                                      "summary": {k: " ".join(v.split()) for k, v in fields.items()}, "wall_s": round(time.time() - t, 1)})
+        self.coqchk_cov = {"cmd": "coqchk -silent -o -Q . V V.Props.%s" % pid, "rc": r.returncode,
+                           "summary": {k: " ".join(v.split()) for k, v in fields.items()}, "wall_s": round(time.time() - t, 1)}
         if not okc:
             self.broken.append("coqchk: rc=%s %s" % (r.returncode, bad or summ[-300:]))
         self.log("coqchk ok=%s in %.0fs" % (okc, time.time() - t))
@@ -577,6 +576,8 @@ class Ctx:
             "modelled_not_verified": getattr(mod, "MODELLED", []),
         }
         cov.update(getattr(self, "extra_cov", {}))
+        if hasattr(self, "coqchk_cov"):
+            cov["coqchk"] = self.coqchk_cov
         write_evidence(pid, self.tier, self.seed, "proof", cov, getattr(mod, "ASSUMPTIONS", []),
                        time.time() - self.t0, violations)
         return rc
